@@ -282,11 +282,19 @@ class HttpProxyPlugin(HttpProtocolHandlerPlugin):
             # tls interception is enabled
             if raw is not None:
                 if not self.request.is_https_tunnel or self._tls_intercept_enabled:
-                    if self.response.is_complete:
-                        self.handle_pipeline_response(raw)
-                    else:
-                        self.response.parse(raw)
-                        self.emit_response_events(len(raw))
+                    # The response parser is only used for bookkeeping (access
+                    # log, events).  Bytes it cannot digest must still reach
+                    # the client unmodified, hence never let it abort the relay.
+                    try:
+                        if self.response.is_complete:
+                            self.handle_pipeline_response(raw)
+                        else:
+                            self.response.parse(raw)
+                            self.emit_response_events(len(raw))
+                    except Exception as e:  # pylint: disable=broad-except
+                        logger.warning(
+                            'Unable to parse upstream response, relaying as is: %r' % e,
+                        )
                 else:
                     self.response.total_size += len(raw)
                 # queue raw data for client
